@@ -1,20 +1,32 @@
 from pyvc.runner import Property, StandIn
 import contracts.all  # noqa
 import contracts.standins_multirun as B
+import contracts.multirun as MR
 
-PROVED = []
+PROVED = [MR.multi_run]
 
 PROPERTY = Property(
-    "C15", "exploration",
+    "C15", "proof",
     contracts=PROVED,
     standins=[StandIn("multi_run under controlled completion orders (real threads)", B.multi_run, B.multi_run.harness,
                       budget={"quick": 150, "thorough": 3000}),
               StandIn("Context.get_array over several runs with workers == one by one", B.context_multi, B.context_multi.harness,
                       budget={"quick": 16, "thorough": 100})],
-    trusted=["the harness' completion-order controller (releases one worker call at a time)"],
-    assumptions=["thread-safety of the shared Context (plugin registry, caches) under arbitrary line-level interleavings is NOT decided: "
+    trusted=["pyvc VC generator and value model", "z3 5.1.0 / cvc5 1.4.0",
+             "the harness' completion-order controller (releases one worker call at a time)"],
+    assumptions=["multi_run is verified for one extra positional and one extra keyword argument; ThreadPoolExecutor / wait / islice / tqdm / "
+                 "numpy are abstract calls; the futures dict is an opaque value whose entries are written only through the checked "
+                 "stores (future -> the run id it was submitted for), which justifies reading pop(f) as that run id",
+                 "NOT proved: that every run is submitted exactly once (the islice window arithmetic), that the final list "
+                 "comprehension applies the computed order, and everything about the shared Context",
+                 "thread-safety of the shared Context (plugin registry, caches) under arbitrary line-level interleavings is NOT decided: "
                  "the context-level stand-in runs under the OS scheduler only"],
-    explanation="bounded: the real strax.multi_run, with worker calls released in every enumerated completion order, returns one result per "
+    explanation="proved for every completion order (the loop over finished futures is verified for an arbitrary finished future): "
+                "every submission passes the caller's function, the run id being scheduled, the caller's extra arguments and keywords "
+                "without the bookkeeping keywords; a future is filed under the run id it was submitted for; for a finished future the "
+                "run-id column is built from that future's run id, merged with that future's result, collected together with that run "
+                "id (results and ids in lock step); a failing future raises unless ignore_errors, in which case nothing is collected "
+                "for it; the returned list is re-ordered by the recorded run ids.  Bounded: the real strax.multi_run, with worker calls released in every enumerated completion order, returns one result per "
                 "successful run in run-id order with the run id attached, executes every run exactly once, raises a failing run's "
                 "exception or omits it under ignore_errors; the real Context gives the same rows for a list of runs with 1..8 workers as "
                 "sequential single-run calls",
